@@ -13,7 +13,7 @@ namespace JV
 
 /-- what the code answers for a row and a category (dtype part of the check) -/
 def dtypeVerdict (c : String × DtypeSpec) (r : DtypeRow) : Bool :=
-  c.2.accepts (extractName Generated.npCanonicalName r.raw)
+  c.2.accepts (extractName Generated.npCanonicalName Generated.duckReprRule r.raw)
 
 /-- **the table**: for every dtype of every library and every exported category the code accepts
     when the documented hierarchy says accept and rejects when it says reject -/
